@@ -62,10 +62,18 @@ impl MdkMemoryStorage {
             .collect();
         let mut secrets: Vec<u64> = s.group_exporter_secrets.keys().copied().collect();
         secrets.sort();
+        // the group-state blob holds a pending commit (fresh randomness when it was created by the
+        // client itself), so only its size class enters the digest
         let mut mls: Vec<String> = s
             .mls_group_data
             .iter()
-            .map(|((_, t), v)| format!("{t:?}:{v:?}"))
+            .map(|((_, t), v)| {
+                if matches!(t, crate::mls_storage::GroupDataType::GroupState) {
+                    format!("{t:?}:pending={}", v.len() > 64)
+                } else {
+                    format!("{t:?}:{v:?}")
+                }
+            })
             .collect();
         mls.sort();
         let mut props: Vec<String> = s
